@@ -43,7 +43,12 @@ PIPE = ["convert-func-to-riscv-func", "convert-scf-to-riscv-scf", "convert-arith
 IOPS = ["addi", "subi", "muli", "andi", "ori", "xori", "shli", "shrui", "shrsi", "divsi", "divui", "remsi", "remui"]
 FOPS = ["addf", "subf", "mulf", "divf", "minimumf", "maximumf"]
 ICONST = [0, 1, -1, 2, 5, 31, 32, 2047, 2048, -2048, -2049, 4095, 4096, 65536, 2147483647, -2147483648, 100000]
-FCONST = ["0.0", "-0.0", "1.0", "-1.0", "0.5", "2.5", "-2.5", "3.5", "1.0e+10", "1.0e-10", "7.0", "0.1"]
+FCONST = ["0.0", "-0.0", "1.0", "-1.0", "0.5", "2.5", "-2.5", "3.5", "1.0e+10", "1.0e-10", "7.0", "0.1",
+          # integer-valued constants around the s32/u32 boundaries (f64 constants that fit s32 are materialised
+          # through li + fcvt.d.w, the others through their bit pattern) and other representation boundaries
+          "2147483647.0", "2147483648.0", "2147483649.0", "3.0e+9", "4294967295.0", "4294967296.0",
+          "-2147483648.0", "-2147483649.0", "-3.0e+9", "16777216.0", "16777217.0", "65536.0", "-65536.0",
+          "1.0e+38", "3.0e+38", "1.0e-38", "1.0e-45", "123456789.0", "-1000000.0"]
 
 
 # ------------------------------------------------------------------ part 1: program generator
